@@ -161,6 +161,7 @@ class Analyzer:
         self.record = False
         self.trace = False
         self.probe_spec = []
+        self.opaque = []
         self.force_ret = {}
         self.rule_c06a = False
         self.soft_widen_on = bool(os.environ.get("SOFT_WIDEN"))
@@ -1264,7 +1265,7 @@ class Analyzer:
         if results is None and (callee.get("resolved_local") or (callee.get("resolved") is None and callee.get("local"))):
             key = self.local_key(callee, f)
             if key is not None:
-                if self.havoc_threshold is not None and self.closure_size(key) > self.havoc_threshold:
+                if (self.havoc_threshold is not None and self.closure_size(key) > self.havoc_threshold) or any(path.endswith(o) for o in self.opaque):
                     results = self.havoc_call(st, args, dest["ty"], site)
                 elif self.use_summaries and "{closure" not in key:
                     results = self.instantiate(self.summarize(key), args, st, site)
